@@ -96,6 +96,7 @@ class Ctx:
                            "how_to_replay": f"./check {self.pid} --replay {path}"}, fh, indent=1, default=str)
             lines.append(f"VIOLATION property={self.pid} replay={path}")
             lines.append(f"  rule {v['rule']}: {v['what']}")
+            lines.append(f"  key {v['key']}")
             if v.get("where"):
                 lines.append(f"  at {v['where']}")
             if v.get("detail"):
